@@ -11,6 +11,11 @@ import (
 
 const maxUint32 = 1 << 32
 
+// maxPrealloc is the largest capacity reserved on the strength of an element
+// count read from the input, before any element has been read. Lists longer
+// than this grow as their elements arrive.
+const maxPrealloc = 4096
+
 // UintListEncoder encodes string slice. Max bytes size for each string is 65536 bytes
 type UintListEncoder struct {
 	buf []byte
@@ -58,6 +63,9 @@ func NewUintListDecoder(reuseRecords bool) *UintListDecoder {
 }
 
 func (d *UintListDecoder) makeUintSlice(n uint32) []uint32 {
+	if n > maxPrealloc {
+		n = maxPrealloc
+	}
 	if d.sl == nil {
 		return make([]uint32, 0, n)
 	}
